@@ -17,8 +17,8 @@ import (
 
 // Table is the result for each input byte.
 type Table struct {
-	Bool  [256]bool
-	Byte  [256]int64
+	Bool   [256]bool
+	Byte   [256]int64
 	IsBool bool
 }
 
